@@ -1,7 +1,7 @@
 //! C02: each message is approved once and executed once, only by its destination.
 //! Finite message-status graph explored to fixpoint (DESIGN.md section 4, C02).
 
-use axmc::aux::Principal;
+use axmc::aux::{Caller, Principal};
 use axmc::explore::*;
 use axmc::gw::*;
 use axmc::refs::*;
@@ -60,11 +60,13 @@ struct C02 {
     max_adv: u8,
 }
 
-const CONTENTS: [Content; 4] = [
+const CONTENTS: [Content; 5] = [
     Content { src: 0, dest: 0, hash: 0 },
     Content { src: 0, dest: 1, hash: 0 },
     Content { src: 0, dest: 0, hash: 1 },
     Content { src: 1, dest: 0, hash: 0 },
+    // destination 2 is a contract, which consumes by calling the gateway itself
+    Content { src: 0, dest: 2, hash: 0 },
 ];
 
 fn src_str(i: u8) -> &'static str {
@@ -115,11 +117,12 @@ impl Scenario for C02 {
         let operator = env.register(Principal, ());
         let a = env.register(Principal, ());
         let b = env.register(Principal, ());
+        let k = env.register(Caller, ());
         let keys = Keys::new(1);
         let set = SetSpec { signers: vec![(0, 1)], threshold: 1, nonce: 1 };
         let gw = register_gateway(&w, None, &owner, &operator, &DOMAIN, 0, 0, &[set.raw(&keys)]);
         (
-            Ctx { w, gw, keys, set, dests: vec![a, b] },
+            Ctx { w, gw, keys, set, dests: vec![a, b, k] },
             Model { status: vec![Status::NotApproved; self.keys.len()], advances: 0 },
         )
     }
@@ -137,7 +140,7 @@ impl Scenario for C02 {
         v.push(Act::Approve(vec![(1, CONTENTS[0]), (0, CONTENTS[0])]));
         v.push(Act::Approve(vec![(0, CONTENTS[3]), (1, CONTENTS[1]), (0, CONTENTS[0])]));
         for k in 0..self.keys.len() {
-            for caller in 0..2u8 {
+            for caller in 0..3u8 {
                 for src in 0..2u8 {
                     for hash in 0..2u8 {
                         v.push(Act::Validate { key: k, caller, src, hash, auth: true });
@@ -195,12 +198,25 @@ impl Scenario for C02 {
                 ];
                 let h0 = w.state_hash();
                 let signers = [who.clone()];
-                let call = w.call(
-                    &ctx.gw,
-                    "validate_message",
-                    &args,
-                    if *auth { Auth::By(&signers) } else { Auth::Nobody },
-                );
+                let call = if *caller == 2 && *auth {
+                    // the destination contract makes the call itself (invoker authorisation)
+                    let mut rargs = args.to_vec();
+                    rargs[0] = soroban_sdk::Symbol::new(env, "__self__").to_val();
+                    let argv: soroban_sdk::Vec<soroban_sdk::Val> = soroban_sdk::Vec::from_slice(env, &rargs);
+                    w.call(
+                        &who,
+                        "relay",
+                        &[ctx.gw.to_val(), soroban_sdk::Symbol::new(env, "validate_message").to_val(), argv.to_val()],
+                        Auth::Nobody,
+                    )
+                } else {
+                    w.call(
+                        &ctx.gw,
+                        "validate_message",
+                        &args,
+                        if *auth { Auth::By(&signers) } else { Auth::Nobody },
+                    )
+                };
                 let attempted = Content { src: *src, dest: *caller, hash: *hash };
                 let should_consume = *auth && m.status[*key] == Status::Approved(attempted);
                 let consumed = call.ok && call.ret_bool() == Some(true);
@@ -293,7 +309,7 @@ fn main() {
         };
         let mut o = Opts::new(tier, if tier == "quick" { 12 } else { 16 });
         o.min_depth = 4;
-        o.rule = "all sequences over {approve single x4 contents per key, 4 batches (same-key/different-content, identical twins, two keys, three entries), validate_message x {2 callers, 2 source addresses, 2 payload hashes, authorised or not} per key, advance 20 ledgers (bounded)}; ids (ab,c)/(a,bc) differ only in the split; explored to fixpoint of the finite status graph; after every new state is_message_approved for all key x content pairs and is_message_executed for all keys are compared with the model".into();
+        o.rule = "all sequences over {approve single x4 contents per key, 4 batches (same-key/different-content, identical twins, two keys, three entries), validate_message x {3 callers (two principals, one calling contract), 2 source addresses, 2 payload hashes, authorised or not} per key, advance 20 ledgers (bounded)}; ids (ab,c)/(a,bc) differ only in the split; explored to fixpoint of the finite status graph; after every new state is_message_approved for all key x content pairs and is_message_executed for all keys are compared with the model".into();
         (s, o)
     });
 }
